@@ -730,7 +730,7 @@ def _mk_eviction(kind, seed, clock_s):
 
 
 def _gen_cached(rng):
-    return {"policy": rng.choice(EVICTION), "cap": rng.choice([4, 8, 16]), "write_back": rng.random() < 0.5,
+    return {"policy": rng.choice(EVICTION + ["random", "sampled_lru"]), "cap": rng.choice([4, 8, 16]), "write_back": rng.random() < 0.5,
             "clients": rng.choice([1, 2, 3]), "ops": rng.choice([80, 140]), "keys": rng.choice([24, 60]),
             "backing_cap": rng.choice([None, None, 20])}
 
@@ -841,6 +841,8 @@ def build_multi_tier(p, seed):
         s.add("tiers", cache.get_tier_stats())
         s.probe("multitier_promotion", cache.stats.promotions > 0)
         s.probe("multitier_l1_eviction", l1.stats.evictions > 0)
+        s.probe("cache_eviction_random_policy", (p["l1"] in ("random", "sampled_lru") and l1.stats.evictions > 0)
+                or (p["l2"] in ("random", "sampled_lru") and l2.stats.evictions > 0))
         s.add("L1.keys", l1.get_cached_keys())
         s.add("L2.keys", l2.get_cached_keys())
         s.add("backing", backing.stats)
